@@ -15,6 +15,7 @@
 
    Nothing is asked of `post` nor of the results of the calls after the flush.
    ComposeFlush.v has the same for a run that ENDS at the flush point and a `Cursor` source. *)
+From MLA Require Import Limit.
 From MLA Require Import Base Stream Blocks Writer WriterProofs Repair RepairSpec RepairPure
   RepairProofs2 RepairProofs5 RepairProofs6 EncLayer EncAuth EncAuthFs EncWriter EncWriterProofs EncFlushProofs
   FlushProofs Run ComposeRdOnly ComposeRepair ComposeWriterRun ComposeFlush.
@@ -30,6 +31,7 @@ Qed.
 
 (* ---------- a run of the writer, split at a call ---------- *)
 Section RunSplit.
+  Context {LIM : Limit}.
   Variable FNMAX : N.
   Variables T_START T_CONTENT T_EOA T_EOF : N.
   Variable H : bytes -> bytes.
@@ -96,6 +98,7 @@ Proof.
 Qed.
 
 Section FlushAt.
+  Context {LIM : Limit}.
   Variable FNMAX CACHE : N.
   Hypothesis HFN : FNMAX < 2 ^ 64.
   Hypothesis HCACHE : 0 < CACHE.
@@ -142,6 +145,8 @@ Section FlushAt.
   (* no layer *)
   Theorem flush_at_plain S I s0 fuel :
     RdRefines (rd S) (w_out s) I -> I s0 0 -> (N.to_nat (len (w_out s)) < fuel)%nat ->
+    (* finalize did not fail with SerializationError (footer within the bincode limit) *)
+    repair S fuel s0 w_init <> Err EDeser ->
     recovers_all s pre (repair S fuel s0 w_init).
   Proof.
     exact (flush_then_repair_plain FNMAX CACHE HFN HCACHE T_START T_CONTENT T_EOA T_EOF Htags H H_len order
@@ -175,7 +180,8 @@ Section FlushAt.
   (* encryption, DataEvenUnauthenticated *)
   Theorem flush_at_enc fuel : (N.to_nat (len (w_out s)) < fuel)%nat ->
     exists e0 b, fs_open Sin i0 = (e0, Ok b) /\
-      recovers_all s pre (repair (FsEnc true Sin) fuel e0 w_init).
+      (repair (FsEnc true Sin) fuel e0 w_init <> Err EDeser ->
+       recovers_all s pre (repair (FsEnc true Sin) fuel e0 w_init)).
   Proof.
     intros Hf.
     destruct (fsenc_rd_refines_skb CHUNK TAG HCHUNK ks tagc true Sin _ Rin Hin Hbig i0 Hi0)
@@ -183,26 +189,27 @@ Section FlushAt.
     exists e0, b. split; [exact Ho|].
     rewrite (unauth_output_is FNMAX CACHE HFN HCACHE T_START T_CONTENT T_EOA T_EOF Htags H H_len s Hnext
                CHUNK TAG CIPHERBUF HCHUNK HTAG ks tagc Htagc pieces fuelw es Hpieces Hew Hbigp Hbig) in HR.
-    exact (flush_at_plain _ I e0 fuel HR HI Hf).
+    intros Hser. exact (flush_at_plain _ I e0 fuel HR HI Hf Hser).
   Qed.
 
   (* encryption, authenticated mode: everything in completed chunks *)
   Theorem flush_at_enc_auth fuel : (N.to_nat (len (w_out s)) < fuel)%nat ->
     exists e0 b, fs_open Sin i0 = (e0, Ok b) /\
+    (repair (FsEnc false Sin) fuel e0 w_init <> Err EDeser ->
     exists m bl status unfinished out obl,
       ew_ctr es * CHUNK <= m /\ m <= len (w_out s) /\ (ew_ctr es = 0 -> m = len (w_out s)) /\
       w_out s = body bl /\ wf_blocks bl /\ w_files s = name_list (files_of bl) /\
       repair (FsEnc false Sin) fuel e0 w_init = Ok (status, unfinished, out) /\
       good_output out obl /\
       (forall f, In f (files_of bl) -> content_of (files_of obl) (f_name f) = present (f_id f) bl m) /\
-      (forall id, data_of_id (files_of bl) id = appended id w_init pre).
+      (forall id, data_of_id (files_of bl) id = appended id w_init pre)).
   Proof.
     intros Hf.
     destruct (clean_run_blocks FNMAX T_START T_CONTENT T_EOA T_EOF H order pre s rs pre_run pre_clean Hops Hnext)
       as (bl & Ho & Hwf & Hne & Hfl & Hd).
     destruct (fsenc_rd_refines_skb CHUNK TAG HCHUNK ks tagc false Sin _ Rin Hin Hbig i0 Hi0)
       as (I & HR & e0 & b & Hop & HI).
-    exists e0, b. split; [exact Hop|].
+    exists e0, b. split; [exact Hop|]. intros Hser.
     pose proof (es_inv s CHUNK CIPHERBUF HCHUNK ks tagc pieces fuelw es Hpieces Hew) as Hinv.
     set (m := ew_auth_len CHUNK TAG ks tagc es (w_out s)).
     destruct (ew_auth_len_bounds CHUNK TAG HCHUNK HTAG ks tagc Htagc es (w_out s) Hinv) as (B1 & B2 & B3).
@@ -217,7 +224,7 @@ Section FlushAt.
     destruct (repair_max_rd FNMAX CACHE HFN HCACHE T_START T_CONTENT T_EOA T_EOF Htags H H_len
                 _ _ I HR bl [] Hwf (or_intror eq_refl)
                 (prefix_trans _ _ _ (prefix_takeN m (body bl)) (prefix_app _ _)) e0 HI fuel
-                ltac:(rewrite Hlm; lia))
+                ltac:(rewrite Hlm; lia) Hser)
       as (status & unf & out & obl & Hr & Hg & Hc).
     rewrite Hlm in Hc.
     exists m, bl, status, unf, out, obl. repeat (split; [assumption|]). exact Hd.
